@@ -11,6 +11,7 @@ from pv import gen, codec
 from pv.core import Sub, Fail, exc_fail
 from pv.order import ref_cmp, rank_class
 from pv.ref import base as R
+from pv.ref import joins as RJ
 
 ID = "C04"
 LEVEL = "exploration"
@@ -19,8 +20,9 @@ RULE = ("Sub 'laws': triples (a,b,c) drawn from a small generated pool over the 
         "Comparable: irreflexive, asymmetric, transitive, transitive incomparability, equivalence <=> ==, <=/>/>= consistent "
         "with < and == (also against an unwrapped scalar right operand), and agreement of every pair with the independently "
         "written ordering pv/order.py. Sub 'triples-exhaustive' (thorough): all triples of a 45-value representative set. "
-        "Sub 'consumers': sort output order, issorted (all key/reverse/strict forms) and the ordered selectors vs the "
-        "reference ordering on generated tables. Non-trivial = the values span >=2 rank classes, or include a nested "
+        "Sub 'consumers': sort output order, issorted (all key/reverse/strict forms), the ordered selectors and the six "
+        "sort-merge joins (output keys ascending, rows paired exactly by the ordering's equivalence) vs the reference "
+        "ordering on generated tables. Non-trivial = the values span >=2 rank classes, or include a nested "
         "sequence, or two == values of different type. Distinct by digest.")
 ASSUMPTIONS = [
     "value domain as stated: no NaN, naive datetimes only, finite Decimals",
@@ -137,8 +139,14 @@ def consumer_case(draw, tier):
     nf = draw(st.sampled_from([1, 2, 3]))
     hdr = ["a", "b", "c"][:nf]
     tbl = draw(gen.table(hdr, [cell] * nf, max_rows=7 if tier == "quick" else 14, ragged=draw(st.booleans())))
-    kind = draw(st.sampled_from(["issorted", "selector", "sort", "selector", "issorted"]))
+    kind = draw(st.sampled_from(["issorted", "selector", "sort", "selector", "issorted", "mergejoin"]))
     c = {"kind": kind, "table": tbl}
+    if kind == "mergejoin":
+        # two rectangular tables keyed on their first field, both drawn from the same pool
+        c["table"] = draw(gen.table(["a", "b"], [cell, st.integers(0, 3)], max_rows=6))
+        c["right"] = draw(gen.table(["a", "c"], [cell, st.integers(0, 3)], max_rows=6))
+        c["fn"] = draw(st.sampled_from(["join", "leftjoin", "rightjoin", "outerjoin", "antijoin", "lookupjoin"]))
+        return c
     if kind == "issorted":
         presort = draw(st.booleans())
         c["key"] = draw(st.sampled_from([None, "a", 0, tuple(hdr), [hdr[-1]]]))
@@ -212,6 +220,24 @@ def check_consumer(case, ctx):
         keys = [R.keyof(r, idx) for r in got[1:]]
         if not R.is_sorted_seq(keys, reverse=reverse):
             return Fail("sort/order", "sort output keys %r not ordered (reverse=%r)" % (keys, reverse))
+        return None
+    if kind == "mergejoin":
+        fn, right = case["fn"], case["right"]
+        ctx.label("join:" + fn)
+        jk = {"join": "inner", "leftjoin": "left", "rightjoin": "right", "outerjoin": "outer", "antijoin": "anti",
+              "lookupjoin": "lookup"}[fn]
+        ehdr, erows, _lk = RJ.ref_join(tbl, right, jk, key="a")
+        lkeys = [r[0] for r in tbl[1:]]
+        ctx.nontrivial(len(erows) >= 2 and _nontrivial(lkeys + [r[0] for r in right[1:]]))
+        try:
+            got = [tuple(r) for r in getattr(etl, fn)(tbl, right, key="a")]
+        except Exception as ex:
+            return exc_fail(fn, ex)
+        keys = [(r[0],) for r in got[1:]]
+        if not R.is_sorted_seq(keys):
+            return Fail(fn + "/key-order", "%s(%r, %r, key='a') output keys %r not ascending under the ordering" % (fn, tbl, right, keys))
+        if not R.same_multiset(got[1:], erows):
+            return Fail(fn + "/pairs", "%s(%r, %r, key='a') gave %r, rows paired by key equivalence are %r" % (fn, tbl, right, got[1:], erows))
         return None
     name, field, x, y, comp = case["selector"], case["field"], case["value"], case["value2"], case["complement"]
     fi = hdr.index(field)
